@@ -571,6 +571,8 @@ def check(fx, rep, tier):
     from .. import core as _core6
 
     _core6.import_rules(rep, fx, "C07", "R06.2", only_rules=("R07.2",), floor=20, what="memory / storage effect obligations (C07 R07.2) behind 'the key of an executed access'", key_filter=lambda k: "effect:" in k or "copy-loop:" in k)
+    # the chain starts at execution: the one-call entry point reaches a layout only through every stage (C17 R17.7)
+    _core6.import_rules(rep, fx, "C17", "R06.2", only_rules=("R17.7",), floor=2, what="pipeline-complete obligations (C17 R17.7) behind 'every executed access reaches the layout'")
     return rep.finish(
         "Must-flow / append-only audit of the chain executed access -> generation -> stored state -> exported StorageWrite -> lifted value -> registered value -> StorageSlot key -> layout row, "
         "with the row index carried as a 256-bit type and no dropping adaptor, conditional or narrowing on any link.",
